@@ -38,6 +38,13 @@ def cases(rng, tier):
                    {"op": "user_decide", "uc": 2, "user": 1, "approve": True},
                    {"op": "poll", "auth": ["c1", "client_secret_basic"], "dc": "dc1", "req_scope": asked}]
             out.append({"cfg": dict(H.World().cfg), "ops": ops})
+    # a registered redirect URI with a percent escape: the token request must present the identical string, not an equivalent spelling
+    esc, plain = "https://c1/cb3?next=%2Fhome", "https://c1/cb3?next=/home"
+    for at_auth, at_token in ((esc, esc), (esc, plain), (plain, plain), (plain, esc), (esc, "https://c1/cb3?next=%2fhome")):
+        out.append({"cfg": dict(H.World().cfg), "ops": [
+            {"op": "authorize", "client": "c1", "redirect": at_auth, "scope": "a", "challenge": None, "method": None, "user": 1, "approve": True},
+            {"op": "redeem", "auth": ["c1", "client_secret_basic"], "code": "code1", "redirect": at_token, "verifier": None}],
+            "expect": [at_auth == esc, at_auth == esc and at_token == esc]})      # a code is issued for the registered spelling only; it is redeemed with the identical string only
     for variant in ("other-client", "replay", "redirect-mismatch", "redirect-dropped", "redirect-added", "expired", "denied"):
         uri = "https://c1/cb2"
         ops = [{"op": "authorize", "client": "c1", "redirect": None if variant == "redirect-added" else uri, "scope": "a b", "challenge": None, "method": None, "user": 2,
@@ -67,6 +74,16 @@ def project(c, out):
 
 
 def oracle_core(c, out):
+    v = _oracle_core(c, out)
+    if c.get("expect") and len(out["outs"]) == len(c["expect"]):
+        got = [out["outs"][0].get("code") is not None, out["outs"][1].get("access") is not None]
+        if got != c["expect"]:
+            v.append((f"authorization with redirect_uri {c['ops'][0]['redirect']!r} then token request with {c['ops'][1]['redirect']!r}: code issued / token issued = {got}, "
+                      f"the statement requires {c['expect']} (the registered URI is {'https://c1/cb3?next=%2Fhome'!r})", {"kind": "redirect-spelling"}))
+    return v
+
+
+def _oracle_core(c, out):
     """the property statement over the observed history"""
     v = []
     def bad(what, **sig):
@@ -134,6 +151,9 @@ def oracle_core(c, out):
                     tok = [t for t in out["store"]["tokens"] if t[0] == o["access"]]
                     if tok and tok[0][3] != decisions[d["uc"]][0]:
                         bad("device token belongs to another user than the approver", kind="token-user")
+                    want = set((d["scope"] or "").split()) & set(cl[auth[0]][3].split())
+                    if not set((o["scope"] or "").split()) <= want:
+                        bad(f"device token scope {o['scope']!r} exceeds the scope the resource owner approved ({d['scope']!r})", kind="token-scope")
             elif d is not None and auth and auth[0] == d["client"]:
                 dec = decisions.get(d["uc"])
                 want = ["expired_token"] if now > d["expires"] else ["access_denied"] if dec and dec[1] is False else ["authorization_pending", "slow_down"] if dec is None else None
